@@ -5,6 +5,8 @@ package mach
 // They are the search oracle of bin/check: a hit is a concrete failing input.
 
 import (
+	"net/url"
+	"path"
 	"crypto/sha512"
 	"encoding/base64"
 	"fmt"
@@ -533,6 +535,68 @@ func (m *M) check(b, route string, a Args, pre *snapshot, r *world.Result) {
 		}
 		if post.Sess["oauth2_state"] == a.State {
 			m.violate("C14", "state-kept", "the OAuth2 state survived the callback that matched it", b)
+		}
+	}
+
+	// ---------------- C08: the access middleware -------------------------------------------------
+	if route == "prot" && r.Panic == "" {
+		_, half := pre.sess["halfauth"]
+		_, twofa := pre.sess["twofactor"]
+		reqOK := !(a.Reqs&1 == 1 && half) && !(a.Reqs&2 == 2 && !twofa)
+		pid := oldU
+		if mwAuth0 {
+			pid = cookiePID0
+			// the remember middleware marks the session half-authenticated for *later* requests; this request's view is the loaded one
+		}
+		_, known := pre.users[pid]
+		storageErr := r.Injected
+		ran := r.Probe != nil && r.Probe.Ran
+		want := reqOK && pid != "" && known && !storageErr
+		full := fmt.Sprintf("/p/%d/%d/%d%s", a.Reqs, a.Fail, a.MP, a.Path)
+		if u, err := url.Parse(full); err == nil {
+			full = u.Path
+		}
+		if ran != want && !storageErr {
+			m.violate("C08", "admission", fmt.Sprintf("middleware reqs=%d fail=%d: handler ran=%v but requirements met=%v user known=%v (pid %q)", a.Reqs, a.Fail, ran, reqOK, known, pid), b)
+		}
+		if ran && r.Probe.PID != pid {
+			m.violate("C08", "wrong-user", "the wrapped handler ran with a user other than the session's", b)
+		}
+		if !ran && !storageErr && !want {
+			switch a.Fail {
+			case 0:
+				if r.Status != 404 {
+					m.violate("C08", "refusal-404", fmt.Sprintf("refusal mode 404 answered %d", r.Status), b)
+				}
+			case 2:
+				if r.Status != 401 {
+					m.violate("C08", "refusal-401", fmt.Sprintf("refusal mode 401 answered %d", r.Status), b)
+				}
+			case 1:
+				loc := r.Location
+				if r.JSON != nil {
+					if l, ok := r.JSON["location"].(string); ok {
+						loc = l
+					}
+				}
+				target := full
+				if a.MP == 1 {
+					target = path.Join("/auth", full)
+				}
+				if a.RawQuery != "" {
+					target += "?" + a.RawQuery
+				}
+				u, err := url.Parse(loc)
+				if err != nil || u.Path != "/auth/login" || u.Query().Get("redir") != target {
+					m.violate("C08", "refusal-redirect", fmt.Sprintf("redirect refusal went to %q, expected the login page carrying %q", loc, target), b)
+				}
+			}
+		}
+		if storageErr && !ran && reqOK && pid != "" && r.Status != 500 && r.Wrote {
+			m.violate("C08", "storage-error", fmt.Sprintf("a storage error answered %d instead of 500", r.Status), b)
+		}
+		if storageErr && ran {
+			m.violate("C08", "storage-error-ran", "the handler ran although loading the user failed", b)
 		}
 	}
 
